@@ -223,6 +223,7 @@ pub enum QueryFaultKind {
 pub struct SimQuerier {
     pub markers: BTreeMap<String, MarkerKind>,
     pub marker_required_attrs: BTreeMap<String, Vec<String>>,
+    pub marker_status: BTreeMap<String, i32>,
     pub attrs: BTreeMap<String, Vec<String>>,
     pub served: RefCell<Vec<Served>>,
     pub nqueries: Cell<u32>,
@@ -314,7 +315,7 @@ impl Querier for SimQuerier {
                         }),
                         manager: "".into(),
                         access_control: vec![],
-                        status: 3,
+                        status: self.marker_status.get(&r.id).copied().unwrap_or(3),
                         denom: r.id.clone(),
                         supply: "0".into(),
                         marker_type: t as i32,
